@@ -2,6 +2,7 @@
 //! One binary, one subcommand per property engine. Exit codes: 0 held, 1 violation, 2 harness error.
 
 mod api;
+mod c11;
 mod c15;
 mod common;
 mod gen;
@@ -25,6 +26,7 @@ fn real_main() -> i32 {
     install_quiet_panic_hook();
     let env = Env::from_env_and_args(&args[1..]);
     match args[0].as_str() {
+        "c11" => c11::main(&env),
         "c15" => c15::main(&env),
         "replay" => {
             let Some(path) = args.get(1) else { return usage() };
@@ -38,6 +40,7 @@ fn real_main() -> i32 {
             };
             match (doc["property"].as_str(), doc["engine"].as_str()) {
                 (Some("C15"), _) => c15::replay(&doc),
+                (Some("C11"), _) => c11::replay(&doc),
                 _ => {
                     eprintln!("unknown property/engine in replay file");
                     2
